@@ -175,3 +175,11 @@ func readLines(path string) []string {
 	}
 	return out
 }
+
+// repoRoot is the tree under verification (fixtures are read from it): /repo unless VERIF_REPO names another one.
+func repoRoot() string {
+	if d := os.Getenv("VERIF_REPO"); d != "" {
+		return d
+	}
+	return "/repo"
+}
